@@ -63,6 +63,13 @@ def judge(op: L.Op, call, sp=None):
     k, what, info = _judge(op, call, sp)
     if k is not None and not k.startswith("untyped-") and op.name == "Scan" and any(a != 0 for a in call["attrs"].get("scan_input_axes", [])):
         k += ":nonzero-scan-input-axes"  # (a family of its own: the constructor slices axis 0 whatever the attribute says)
+    if k is not None and k.startswith("types-differ:"):
+        given = set()
+        for v in call["vars"]:
+            L.dim_params(v["ty"], given)
+        if any(d.startswith("unk__") for d in given):
+            # a family of its own: the caller's own dimension name looks like a generated one and is stripped with them
+            k = "types-differ:user-dim-named-unk__"
     return k, " ".join(what.split()), info
 
 
@@ -91,6 +98,37 @@ def _judge(op: L.Op, call, sp=None):
             return (f"patched-accepts-onnx-rejects:{op.name}",
                     f"{op.name} (inference supplemented by spox): the constructor accepted a call that ONNX strict inference rejects: {outs[0].get('msg', '')[:120]}",
                     info)
+        if not raised:
+            # accepted by both: the supplement may say MORE than ONNX (that is what it is for), never
+            # less and nothing else; outputs the supplement does not speak about must be ONNX's own
+            worst = None
+            for o in outs:
+                if o["reject"]:
+                    continue
+                rels = [L.ty_relation(a, b) for a, b in zip(sp["types"], o["types"])]
+                if len(sp["types"]) != len(o["types"]):
+                    rels.append("contradicts")
+                if op.name == "Loop":  # the supplement is about the loop-carried outputs only
+                    nc = len(call["args"][2] or [])
+                    rels = [r if i < nc or r == "eq" else "differs" for i, r in enumerate(rels)]
+                bad = [r for r in rels if r not in ("eq", "refines")]
+                if not bad:
+                    worst = None
+                    break
+                rank = ["differs", "contradicts", "untyped", "weaker"]
+                w = min(bad, key=rank.index)
+                if worst is None:
+                    worst = (w, o, rels)
+            if worst is not None:
+                w, o, rels = worst
+                info["relation_to_onnx"] = rels
+                if w == "differs":
+                    return (f"types-differ:{op.name}",
+                            f"{op.name}: output Var types {sp['types']} differ from ONNX's {o['types']} on an output the supplement does not speak about", info)
+                return (f"patched-types-{w}:{op.name}",
+                        f"{op.name} (inference supplemented by spox): output Var types {sp['types']} vs ONNX's {o['types']}: "
+                        + {"contradicts": "contradict what ONNX infers", "untyped": "an output is left untyped although every input is typed and ONNX infers a type",
+                           "weaker": "forget part of what ONNX infers"}[w], info)
         return (None, "", info)
     if raised and all(o["reject"] for o in outs) and L.has_optional_outputs(op):
         # the constructor always asks for every optional output; is it that which ONNX refuses?
@@ -243,6 +281,11 @@ def register(ck, op, key, what, call, earlier):
     """Register a failure found in the sweep with a witness that fails in a fresh process: the call
     alone if possible, otherwise the call preceded by earlier calls of this process (hidden state)."""
     single = {"op_key": op.key, "call": call}
+    if _confirm_budget["single"] <= 0:
+        # enough witnesses of this task were already confirmed in fresh processes: do not guess at a
+        # "process state" explanation for a failure that was simply not re-run alone
+        brk(ck, "oracle", f"failure seen, not re-run in a fresh process (confirmation budget of the task spent): {key}", what[:300])
+        return
     if confirm(single, key):
         small = shrink(op, call, key)
         if small != call and confirm({"op_key": op.key, "call": small}, key):
@@ -437,6 +480,31 @@ def _correspond_case(ck, op, call, sp, ans, stats):
                     d.append(f"model: returns {json.dumps(exp)[:200]}; real raised {sp['raised']}: {sp.get('msg', '')[:120]}")
                 else:
                     _cmp("output Var types", [[k, t] for k, t in zip(out_keys(cls, call), sp["types"])], exp, d)
+    # Type._to_onnx / Type._from_onnx vs the model's toProto / fromProto
+    if sp.get("proto_obs_error"):
+        brk(ck, "correspondence", "not observable: Type._to_onnx / Type._from_onnx", sp["proto_obs_error"])
+    if sp.get("proto_obs") is not None and "to_proto" in ans:
+        stats["type_proto_compared"] += len(sp["proto_obs"]["to"]) + len(sp["proto_obs"]["from"])
+        _cmp("Type._to_onnx of the operand types (field presence included)", sp["proto_obs"]["to"], ans["to_proto"], d)
+        _cmp("Type._from_onnx of the TypeProtos ONNX answered with", sp["proto_obs"]["from"], ans.get("from_proto", []), d)
+    # loop / scan / sequence_map / if_: the types the body's formal arguments were declared with
+    if "formals" in ans and sp.get("node") and "formals" in sp["node"]:
+        stats["body_formals_compared"] += 1
+        _cmp("declared types of the body's formal arguments", sp["node"]["formals"]["real"], ans["formals"], d)
+    # the supplements that run the standard routine first: their own rules on top of its answer
+    if "loop_own" in ans and sp["raised"] is None:
+        stats["loop_own_compared"] += 1
+        _cmp("Loop supplement (carried outputs: common type of body result and declared argument; other outputs: the standard routine's)",
+             [[k, t] for k, t in zip(out_keys(cls, call), sp["types"])], ans["loop_own"], d)
+    if "compress_own" in ans:
+        stats["compress_own_compared"] += 1
+        if ans["compress_own"] == "inference":
+            if sp["raised"] != "InferenceError":
+                d.append(f"model compressOwn: InferenceError; real: {sp['raised'] or 'returned ' + json.dumps(sp['types'])}")
+        elif sp["raised"] is not None:
+            d.append(f"model compressOwn: {json.dumps(ans['compress_own'])}; real raised {sp['raised']}: {sp.get('msg', '')[:120]}")
+        else:
+            _cmp("Compress supplement", sp["types"], [ans["compress_own"]], d)
     # value propagation: types as `construct`, a value only on a typed output
     if "vp" in ans and ans["vp"] != "error" and sp["raised"] is None and sp.get("has_value") is not None and not patched:
         stats["value_prop_compared"] += 1
@@ -821,6 +889,21 @@ def run(ck: core.Check):
         ck.cov["overrides_in_source"] = {k: [list(x) for x in v] for k, v in gen.items() if k != "rows"}
     except Exception as e:  # noqa: BLE001
         brk(ck, "generated", "override table could not be extracted", f"{type(e).__name__}: {e}"[:300])
+    # tie G (inventory): normalised-AST hashes of the functions the model writes down, against the
+    # baseline the check was last validated on. A difference fails nothing, it escalates the counts.
+    boost = 1
+    try:
+        cur = c05_overrides.covered_hashes()
+        base = json.loads((core.VERIF / "harness" / "c05_source_baseline.json").read_text())
+        changed = sorted(k for k in set(cur) | set(base) if cur.get(k) != base.get(k))
+        ck.cov["modelled_functions"] = {"count": len(cur), "changed_since_baseline": changed}
+        if changed:
+            boost = 2
+            ck.log(f"modelled functions changed since the baseline ({len(changed)}): {changed[:6]} - doubling the sweep")
+            ck.notes.append(f"modelled functions differ from the baseline (sweep doubled): {changed}")
+    except Exception as e:  # noqa: BLE001
+        boost = 2
+        ck.cov["modelled_functions"] = {"error": f"{type(e).__name__}: {e}"[:200]}
     res = ck.lean(["SpoxModel.Props.C05"], audit="SpoxModel.Audit.C05")
     if ck.thorough:
         ck.leanchecker(["SpoxModel.Props.C05"])
@@ -862,7 +945,7 @@ def run(ck: core.Check):
         cwork += [op.key] * (ck.pick(50, 300) if op.name in DATA_DEP else ck.pick(8, 50))
     work = []
     for op in ops:
-        work += [op.key] * _budget(ck, op)
+        work += [op.key] * (_budget(ck, op) * boost)
     for lst in (hwork, cwork, work):
         rng.shuffle(lst)  # a slice mixes operators; order is still a function of the seed
     nflows = ck.pick(1500, 9000)
